@@ -1,8 +1,8 @@
 """C09 configuration for bin/check."""
 
 CFG = {
-        "tier_a": [],
-        "model_targets": ["Session/Pipeline.vo"],
+        "tier_a": ["SessionFacts.typecheck_function_steps", "SessionFacts.typecheck_program_steps", "SessionFacts.resolve_before_proofs_steps", "SessionFacts.process_program_steps", "SessionFacts.push_steps", "SessionFacts.pop_steps", "SessionFacts.tc_arm_function_steps", "SessionFacts.tc_arm_sort_steps", "SessionFacts.tc_arm_let_steps", "SessionFacts.tc_arm_action_steps", "SessionFacts.tc_arm_rule_steps", "SessionFacts.tc_arm_check_steps", "SessionFacts.tc_arm_schedule_steps", "SessionFacts.tc_arm_ruleset_steps", "SessionFacts.tc_arm_combined_steps", "SessionFacts.tc_arm_push_steps", "SessionFacts.tc_arm_pop_steps", "SessionFacts.tc_arm_printsize_steps", "SessionFacts.tc_arm_fail_steps", "SessionFacts.shadow_arm_sort_steps", "SessionFacts.shadow_arm_function_steps", "SessionFacts.shadow_arm_ruleset_steps", "SessionFacts.shadow_arm_combined_steps", "SessionFacts.shadow_arm_rule_steps", "SessionFacts.shadow_arm_action_steps", "SessionFacts.shadow_arm_fail_steps", "SessionFacts.run_arm_sort_steps", "SessionFacts.run_arm_function_steps", "SessionFacts.run_arm_ruleset_steps", "SessionFacts.run_arm_combined_steps", "SessionFacts.run_arm_rule_steps", "SessionFacts.run_arm_action_steps", "SessionFacts.run_arm_check_steps", "SessionFacts.run_arm_push_steps", "SessionFacts.run_arm_pop_steps", "SessionFacts.run_arm_fail_steps"],
+        "model_targets": ["Session/Pipeline.vo", "gen/SessionFacts.vo"],
         "proof_targets": ["Props/C09.vo"],
         "harness": [{"bin": "h_session", "prefix": "cases_session", "timeout": 3000}],
         "trusted": [
@@ -14,6 +14,13 @@ CFG = {
             "+/min/max on i64); the constraint solver, primitives, containers' operations, schedules, extraction, "
             "term/proof encoding are not modelled (link-only: differential S1;bad;S2 vs S1;S2 in three modes)",
         ],
+        "tier_a_note": "gen/SessionFacts.v (translator/src/x_session.rs): for typecheck_function, typecheck_program, "
+                       "resolve_command_before_proofs, process_program_internal, push, pop and every arm of typecheck_command / "
+                       "check_shadowing / run_command: the ordered list of Validate (`?`, Err(..)), Mutate (insert/push/assign on a "
+                       "self-rooted field path), Backend (self.backend.m), Opaque (mutable state handed to unwalked code), Panics, "
+                       "Call (dispatchers), Loop markers; &mut-self callees inlined; sibling branches that only reject listed first. "
+                       "Session/Order.v: model order = regenerated order (36 paths), tc_function / tc_sort / let arm = interpretation "
+                       "of the regenerated lists, vf <-> atomic (abstract executions), classification atomic-by-order vs refuted",
         "theorem_backed": "over the faithful declaration-state model (typecheck_function in the order repaired by "
                           "repository commit 473a35e): (a) rejected => state unchanged for every command whose "
                           "typechecking is pure (ruleset, rule, run, check, push, pop, print-size, set, union, "
@@ -34,5 +41,9 @@ CFG = {
             "names are the harness' universe (n<k>, $n<k>); primitives/reserved names never collide with them",
             "a rule is seminaive (default); :naive / :unsafe-seminaive rules are not modelled",
             "strict mode off; no user macros, no include/input/output",
+            "Order.v: Opaque steps (mksort, register_type, register_primitives, desugar_command, remove_globals, ...) and "
+            "method calls on self-rooted receivers that are neither known &mut-self methods nor named like a mutator are "
+            "assumed not to touch the declaration state; bookkeeping fields (warned_about_global_prefix, overall_run_report) "
+            "are not session state; pop's `take()` before Err(Pop) makes pop not atomic BY ORDER (it is by the model + harness)",
         ],
     }
